@@ -42,7 +42,7 @@ func TestVerifC09Racing(t *testing.T) {
 	rep.Assume("while a clean races with appends the segment that was newest at its start may grow between the cleaner's limit evaluations: necessity is checked with that segment's FINAL size (the largest it can have had), sufficiency with its size BEFORE the clean (the smallest), over the segments that existed when the clean started; segments rolled during the clean are not subject to this clean")
 	rep.Assume("in the 'early' schedule the clean's snapshot is unknown: only 'gap-free suffix ending at the newest offset', 'newest segment kept', necessity with final sizes of the whole log and sufficiency over the pre-existing segments are checked")
 	root := kit.NewRNG(kit.Mix(kit.Seed(), 0xC09C))
-	ncases := kit.Scale(200, 2000)
+	ncases := kit.Scale(200, 1000)
 	for i := 0; i < ncases && rep.NumViolations() < 12; i++ {
 		c09RunRacing(rep, root.Fork(uint64(i)), i)
 	}
@@ -366,15 +366,21 @@ func (e *c09Env) raceCheck(rng *kit.RNG, pre, post []c09Seg, n0 int64, early boo
 		}
 	}
 	// NECESSITY with the largest sizes the cleaner can have seen
-	if k > 0 && k <= last {
+	if k > 0 {
+		j := k - 1 // newest removed segment among those that existed before
 		var env []c09Seg
 		if early {
-			// unknown snapshot: everything that exists at the end, from the
-			// newest removed segment on
-			env = append(env, pre[k-1])
-			env = append(env, post...)
+			// Unknown snapshot, and segments rolled by the appender may have
+			// been in it and been removed too: bound what followed pre[j] by
+			// EVERYTHING appended after it up to the end of the run.
+			rest := c09Seg{Base: pre[j].LastOff + 1, LastTS: e.ts}
+			for o := pre[j].LastOff + 1; o < e.next; o++ {
+				rest.Count++
+				rest.Bytes += 28 + int64(len(c09MsgBytes(e.orig[o])))
+			}
+			env = []c09Seg{pre[j], rest}
 		} else {
-			env = append(env, pre[k-1:last]...)
+			env = append(env, pre[j:last]...)
 			fin := pre[last]
 			for _, s := range post {
 				if s.Base == fin.Base {
@@ -385,17 +391,7 @@ func (e *c09Env) raceCheck(rng *kit.RNG, pre, post []c09Seg, n0 int64, early boo
 		}
 		if v := c09Violated(env, e.lim); len(v) == 0 {
 			e.fail("C09:removed-more-than-needed:"+e.lim.kinds(),
-				fmt.Sprintf("segment base %d was removed by a clean racing with appends although even with the final sizes the log from it on satisfies every configured limit (%s): %v", pre[k-1].Base, e.lim, env), wit)
-		}
-	}
-	if early && k > last {
-		// every pre-existing segment is gone: justified only if the segment
-		// that was newest before (it may have been sealed before the snapshot)
-		// had to go, judged with final sizes
-		env := append([]c09Seg{pre[last]}, post...)
-		if v := c09Violated(env, e.lim); len(v) == 0 {
-			e.fail("C09:removed-more-than-needed:"+e.lim.kinds(),
-				fmt.Sprintf("segment base %d was removed by a clean racing with appends although even with the final sizes the log from it on satisfies every configured limit (%s): %v", pre[last].Base, e.lim, env), wit)
+				fmt.Sprintf("segment base %d was removed by a clean racing with appends although even with the largest sizes it can have seen the log from it on satisfies every configured limit (%s): %v", pre[j].Base, e.lim, env), wit)
 		}
 	}
 	// SUFFICIENCY with the smallest sizes the cleaner can have seen
